@@ -107,6 +107,47 @@ class Recorder:
         self.cls.set_state = self.orig
 
 
+def _find_by_type(obj, cls, preferred):
+    """The context keeps its managers in private attributes; look the object up by TYPE so that a renamed attribute is
+    not mistaken for a broken property (fall back to the conventional name first, it is cheaper)."""
+    x = getattr(obj, preferred, None)
+    if isinstance(x, cls):
+        return x
+    for v in vars(obj).values():
+        if isinstance(v, cls):
+            return v
+    raise AttributeError(f"no {cls.__name__} found on {type(obj).__name__}")
+
+
+def _lcm(sim):
+    from vivarium.framework.lifecycle import LifeCycleManager
+    return _find_by_type(sim, LifeCycleManager, "_lifecycle")
+
+
+def _clk(sim):
+    from vivarium.framework.time import SimulationClock
+    return _find_by_type(sim, SimulationClock, "_clock")
+
+
+def recorded_phases(interactive=False):
+    """(name, [state names], loop) of every phase of the engine's life cycle, in order, recorded from the PUBLIC method
+    LifeCycle.add_phase while a real context is being constructed (no private attribute of LifeCycle is read)."""
+    from vivarium.framework.lifecycle import LifeCycle
+    rec = []
+    orig = LifeCycle.add_phase
+
+    def spy(self, phase_name, states, loop):
+        out = orig(self, phase_name, states, loop)
+        rec.append((str(phase_name), [str(x) for x in states], bool(loop)))
+        return out
+    LifeCycle.add_phase = spy
+    try:
+        sim, probe = new_context(interactive)
+    finally:
+        LifeCycle.add_phase = orig
+    return sim, probe, rec
+
+
 def new_context(interactive):
     from vivarium.framework.engine import SimulationContext
     from vivarium.interface.interactive import InteractiveContext
@@ -122,7 +163,7 @@ def new_context(interactive):
 
 
 def steps_remaining(sim):
-    clock = sim._clock
+    clock = _clk(sim)
     try:
         n = math.ceil((clock.stop_time - clock.time) / clock.step_size)
     except Exception:
@@ -148,7 +189,7 @@ def methods():
         "i_step": (True, lambda sim: sim.step()),
         "i_take_steps": (True, lambda sim: sim.take_steps(2, with_logging=False)),
         "i_run_for": (True, lambda sim: sim.run_for(pd.Timedelta(days=2), with_logging=False)),
-        "i_run_until": (True, lambda sim: sim.run_until(sim._clock.time + pd.Timedelta(days=2), with_logging=False)),
+        "i_run_until": (True, lambda sim: sim.run_until(_clk(sim).time + pd.Timedelta(days=2), with_logging=False)),
         "i_run": (True, lambda sim: sim.run(with_logging=False)),
     }
 
@@ -175,17 +216,17 @@ def drive_to(sim, probe, state, then):
     outer_setup()                                # fires "setup" / "post_setup"
     if state in ("setup", "post_setup"):
         return
-    if sim._lifecycle.current_state == "post_setup":
+    if _lcm(sim).current_state == "post_setup":
         sim.initialize_simulants()               # fires "population_creation"
     if state == "population_creation":
         return
-    if sim._lifecycle.current_state in ("population_creation", "collect_metrics") and state in STATES[4:8]:
+    if _lcm(sim).current_state in ("population_creation", "collect_metrics") and state in STATES[4:8]:
         from vivarium.framework.engine import SimulationContext
         SimulationContext.step(sim)              # fires the four loop states
         return
     if state in ("simulation_end", "report"):
         from vivarium.framework.engine import SimulationContext
-        while sim._clock.time < sim._clock.stop_time:      # population_creation -> simulation_end is not a legal move
+        while _clk(sim).time < _clk(sim).stop_time:      # population_creation -> simulation_end is not a legal move
             SimulationContext.step(sim)
         sim.finalize()
         if state == "report":
@@ -196,21 +237,21 @@ def continue_to_end(sim):
     """The legal continuation from wherever the context now is; returns the final state name or the error."""
     from vivarium.framework.engine import SimulationContext
     try:
-        st = sim._lifecycle.current_state
+        st = _lcm(sim).current_state
         if st == "initialization":
             SimulationContext.setup(sim)
-            st = sim._lifecycle.current_state
+            st = _lcm(sim).current_state
         if st == "post_setup":
             sim.initialize_simulants()
-            st = sim._lifecycle.current_state
+            st = _lcm(sim).current_state
         if st in ("population_creation", "collect_metrics"):
-            while sim._clock.time < sim._clock.stop_time:
+            while _clk(sim).time < _clk(sim).stop_time:
                 SimulationContext.step(sim)
             sim.finalize()
-            st = sim._lifecycle.current_state
+            st = _lcm(sim).current_state
         if st == "simulation_end":
             sim.report(print_results=False)
-        return sim._lifecycle.current_state
+        return _lcm(sim).current_state
     except Exception as e:
         return f"error:{type(e).__name__}:{e}"
 
@@ -256,7 +297,7 @@ def record_scripts():
             if target in ("population_creation", "collect_metrics", "simulation_end"):
                 sim.initialize_simulants()
             if target in ("collect_metrics", "simulation_end"):
-                while sim._clock.time < sim._clock.stop_time:
+                while _clk(sim).time < _clk(sim).stop_time:
                     SimulationContext.step(sim)
             if target == "simulation_end":
                 sim.finalize()
@@ -276,11 +317,8 @@ _SCRIPTS = {}
 
 def tables(run):
     from vivarium.framework.lifecycle import LifeCycleManager
-    sim, probe = new_context(False)
-    lc = sim._lifecycle.lifecycle
-    phases = []
-    for i, ph in enumerate(lc._phases):
-        phases.append((i, [s.name for s in ph.states], bool(ph._loop)))
+    sim, probe, rec = recorded_phases(False)
+    phases = [(i, sts, lp) for i, (_, sts, lp) in enumerate(rec)]
     scripts = record_scripts()
     _SCRIPTS.update(scripts)
     step_sc, _ = scripts["step"]
@@ -350,7 +388,7 @@ def run_cell(case):
     rec = {}
 
     def then():
-        before = sim._lifecycle.current_state
+        before = _lcm(sim).current_state
         n = steps_remaining(sim)
         mark = len(probe.log)
         err = None
@@ -358,7 +396,7 @@ def run_cell(case):
             call(sim)
         except Exception as e:
             err = e
-        rec.update(before=before, n=n, err=err, after=sim._lifecycle.current_state,
+        rec.update(before=before, n=n, err=err, after=_lcm(sim).current_state,
                    entries=list(probe.log[mark:]))
 
     with Recorder(probe.log):
